@@ -6,4 +6,4 @@ CONSTANTS
   CVals <- C5to9
   AstVals <- Ast0
   MaxS = 14
-INVARIANTS ImplWellFormed
+INVARIANTS ImplOrigWellFormed
